@@ -236,6 +236,91 @@ def perseusRun (m : Pomdp) (beliefs : List (Nat → Rat)) (v0 : Rat) : Nat → V
   | h+1 => perseusRun m beliefs v0 h ++
       [perseusStep m beliefs (vlist (perseusRun m beliefs v0 h) ((perseusRun m beliefs v0 h).length - 1))]
 
+/-! ## LinearSupport::operator(): corner supports, vertex agenda (vertex enumeration = oracle) -/
+
+def bfunL (l : List Rat) : Nat → Rat := fun s => l.getD s 0
+
+structure LSVertex where
+  belief : List Rat
+  cur : Rat
+  support : VEntry
+  err : Rat
+
+structure LSState where
+  good : VList                 -- goodSupports
+  all : List VEntry            -- allSupports (a set in the code; only membership matters)
+  tried : List (List Rat)      -- triedVertices
+  agenda : List LSVertex       -- agenda_ (priority queue on `err`)
+
+/-- `checkDifferentGeneral(diff, tolerance)` -/
+def differentGeneral (a b : Rat) : Bool :=
+  !(decide (absQ (a - b) ≤ Gen.equalToleranceSmall) ||
+    decide (absQ (a - b) ≤ minQ (absQ a) (absQ b) * Gen.equalToleranceGeneral))
+
+/-- the all-actions point backup of LinearSupport / PERSEUS on the projections of `prev` -/
+def backupAt (m : Pomdp) (prev : VList) (b : Nat → Rat) : VEntry :=
+  crossSumBestAtBeliefAll m.S b (fun a => (List.range m.O).map (fun o => project m prev a o)) m.A
+
+/-- the `for (size_t s = 0; s < S; ++s)` corner loop: a corner's support joins `goodSupports` iff it is new -/
+def lsCorners (m : Pomdp) (prev : VList) : List Nat → LSState → LSState
+  | [], st => st
+  | s :: rest, st =>
+    let e := backupAt m prev (fun i => if i = s then 1 else 0)
+    if st.all.contains e then lsCorners m prev rest st
+    else lsCorners m prev rest { st with all := st.all ++ [e], good := st.good ++ [e] }
+
+/-- the `for (i < vertices.first.size())` loop: untried vertices whose true value beats the current surface by more
+    than the tolerance go to the agenda together with their support -/
+def lsScan (m : Pomdp) (prev : VList) (tolerance : Rat) : List (List Rat) → LSState → LSState
+  | [], st => st
+  | v :: rest, st =>
+    if st.tried.contains v then lsScan m prev tolerance rest st else
+    let b := bfunL v
+    let support := backupAt m prev b
+    let trueValue := dot m.S b (val support)
+    let currentValue := (bestAtPoint m.S b st.good).2
+    let diff := trueValue - currentValue
+    let st := if decide (tolerance < diff) && differentGeneral diff tolerance then
+        { st with all := if st.all.contains support then st.all else st.all ++ [support],
+                  agenda := st.agenda ++ [⟨v, currentValue, support, diff⟩] }
+      else st
+    lsScan m prev tolerance rest { st with tried := st.tried ++ [v] }
+
+/-- `agenda_.top()` / `pop()`: a vertex of largest error (first such in insertion order) and the others -/
+def lsPopMax : List LSVertex → Option (LSVertex × List LSVertex)
+  | [] => none
+  | x :: xs =>
+    match lsPopMax xs with
+    | none => some (x, [])
+    | some (y, ys) => if x.err < y.err then some (y, x :: ys) else some (x, xs)
+
+/-- the `do { … } while (true)` loop.  `verts2 support good` stands for
+    `findVerticesNaive(&support, &support+1, good.begin(), good.end())`, `pop` for the priority queue. -/
+def lsLoop (m : Pomdp) (prev : VList) (tolerance : Rat) (verts2 : VEntry → VList → List (List Rat))
+    (pop : List LSVertex → Option (LSVertex × List LSVertex)) : Nat → List (List Rat) → LSState → LSState
+  | 0, _, st => st
+  | f+1, vs, st =>
+    let st1 := lsScan m prev tolerance vs st
+    match pop st1.agenda with
+    | none => st1
+    | some (best, rest) =>
+      let rest' := rest.filter (fun it => !(decide (it.cur < dot m.S (bfunL it.belief) (val best.support))))
+      lsLoop m prev tolerance verts2 pop f (verts2 best.support st1.good)
+        { st1 with agenda := rest', good := st1.good ++ [best.support] }
+
+/-- one timestep; `verts1 good` stands for `findVerticesNaive(goodSupports)` -/
+def lsStep (m : Pomdp) (tolerance : Rat) (verts1 : VList → List (List Rat)) (verts2 : VEntry → VList → List (List Rat))
+    (pop : List LSVertex → Option (LSVertex × List LSVertex)) (fuel : Nat) (prev : VList) : VList :=
+  let st0 := lsCorners m prev (List.range m.S) ⟨[], [], [], []⟩
+  (lsLoop m prev tolerance verts2 pop fuel (verts1 st0.good) st0).good
+
+def lsRun (m : Pomdp) (tolerance : Rat) (verts1 : VList → List (List Rat)) (verts2 : VEntry → VList → List (List Rat))
+    (pop : List LSVertex → Option (LSVertex × List LSVertex)) (fuel : Nat) : Nat → VF
+  | 0 => zeroVF m.S
+  | h+1 => lsRun m tolerance verts1 verts2 pop fuel h ++
+      [lsStep m tolerance verts1 verts2 pop fuel
+        (vlist (lsRun m tolerance verts1 verts2 pop fuel h) ((lsRun m tolerance verts1 verts2 pop fuel h).length - 1))]
+
 /-! ## Witness::operator(): per-action agenda loop (witness LP = oracle) -/
 
 def subV : List Rat → List Rat → List Rat
